@@ -6,6 +6,7 @@ package main
 
 import (
 	"fmt"
+	"go/constant"
 	"go/types"
 	"regexp"
 	"strings"
@@ -64,7 +65,39 @@ func resultElem(ev Event, i int) AV {
 	return AV{}
 }
 
+// emptyBytesWorld: set by the checks that use isEmptyBytes, for resolving
+// package-level variables.
+var emptyBytesWorld *World
+
 func isEmptyBytes(a AV) bool {
+	// a package-level variable that only its initialiser writes, whose address
+	// is not taken and whose initial value has length 0 (nil, []byte(""), an
+	// empty literal): no element exists that could be changed later
+	if w := emptyBytesWorld; w != nil && strings.HasPrefix(a.name(), "g:") {
+		for g, gi := range w.globals {
+			n := "g:" + globalName(g)
+			if a.name() != n && !strings.HasPrefix(a.name(), n+"@") {
+				continue
+			}
+			if !gi.InitOnly || len(gi.AddrEscapes) > 0 || gi.InitVal == nil {
+				return false
+			}
+			switch v := gi.InitVal.(type) {
+			case *ssa.Const:
+				return v.Value == nil
+			case *ssa.Convert:
+				c, ok := v.X.(*ssa.Const)
+				return ok && c.Value != nil && c.Value.Kind() == constant.String && constant.StringVal(c.Value) == ""
+			case *ssa.Slice:
+				if al, ok := v.X.(*ssa.Alloc); ok {
+					if arr, ok := al.Type().(*types.Pointer).Elem().Underlying().(*types.Array); ok {
+						return arr.Len() == 0
+					}
+				}
+			}
+			return false
+		}
+	}
 	switch a.Kind {
 	case KNil:
 		return true
@@ -169,6 +202,7 @@ func calledOnlyFrom(w *World, fn *ssa.Function, allowed map[string]bool) bool {
 // ---------------------------------------------------------------- C02 ----
 
 func checkC02(w *World, r *Recorder) propInfo {
+	emptyBytesWorld = w
 	info := propInfo{
 		Explanation: "Decided part (all in-repo): on every path of Evidence.Verify that can return nil, (V1) ProtectedHeader.Algorithm was called on the *protected* bucket of e.message and returned a nil error, (V2) cose.NewVerifier was called with that algorithm and the caller's key and returned nil error, (V3) (*Sign1Message).Verify was called on e.message itself with that verifier and a zero-length external AAD and returned nil, (V4) e.message is non-nil; every failing call makes Verify fail. (V5) Evidence.message is written only by Sign / ValidateAndSign / UnmarshalCOSE (and private helpers reachable only from them). (V6) in UnmarshalCOSE the claims are decoded from the Payload field of the very message whose tagged UnmarshalCBOR consumed the caller's buffer. Not decided: unforgeability of the signature schemes, go-cose's Sig_structure construction, bit-level behaviour of the CBOR decoders — cryptographic and library facts outside static reach; go-cose's Verify is modelled from its source (error when payload is nil, signature empty, or algorithm absent).",
 		Rule:        "one obligation per (rule, path) of Verify and per writer site; decided by the path engine over call events",
@@ -344,6 +378,7 @@ func c20Payload(w *World, r *Recorder, rule string) {
 // ---------------------------------------------------------------- C03 ----
 
 func checkC03(w *World, r *Recorder) propInfo {
+	emptyBytesWorld = w
 	info := propInfo{
 		Explanation: "Decided part: on every path of ValidateAndSign / Sign that can return a nil error, (S1) the value stored into the message's Payload is result 0 of the package encoder applied to the Evidence's own Claims (for ValidateAndSign inside ValidateAndEncodeClaimsToCBOR, i.e. after validation — C08), its error being fatal; (S2) SetAlgorithm is applied to the *protected* header of that same message with the result of signer.Algorithm() of the caller's signer, Sign is invoked on that message with that signer and a zero-length external AAD, and the token returned is result 0 of the *tagged* (*Sign1Message).MarshalCBOR of that message; (S3) payload store and SetAlgorithm precede Sign, Sign's nil result precedes MarshalCBOR, and every failing path returns a nil token; the message is the fresh one stored into the Evidence in this call. Together with C02-V6 (decode side) this is the structural half of the round trip. Not decided: byte identity of payloads and claim-for-claim equality after decoding (run-time equalities of library encoders/decoders; see C09/C10 for their structural parts), success of verification with the matching key (cryptography).",
 		Rule:        "one obligation per (rule, success path) of the two signing methods",
